@@ -11,7 +11,10 @@ package main
 //                                   receives the connection, how many physical connections the relay saw
 //   polnet first <bad> <carrier>    upstream list [bad, good]: bad = refused (nobody listens) | garbage
 //                                   (answers nonsense, closes) | silent | silenttls (accepts, never answers;
-//                                   plain / TLS dial) | insecure (a real server without encryption while the
+//                                   plain / TLS dial) | stalltls (a real StartTLS-offering server over TCP whose
+//                                   answers stop after the 101: silence inside the client's StartTLS handshake)
+//                                   | silentws (ws:// upstream whose peer never answers the websocket upgrade)
+//                                   | insecure (a real server without encryption while the
 //                                   client requires security); the local connection must be served through
 //                                   the good one, and a second one must reuse the session
 //
@@ -29,6 +32,7 @@ import (
 	"github.com/bokysan/socketace/v2/internal/client/listener"
 	"github.com/bokysan/socketace/v2/internal/client/upstream"
 	clientCmd "github.com/bokysan/socketace/v2/internal/commands/client"
+	"github.com/bokysan/socketace/v2/internal/server"
 	"github.com/bokysan/socketace/v2/internal/util/addr"
 	"github.com/bokysan/socketace/v2/internal/util/cert"
 )
@@ -185,6 +189,12 @@ func badListener(kind string) (string, func(), error) {
 			}
 			held = append(held, c)
 			go func(c net.Conn) {
+				if kind == "stalltls" {
+					ch := server.Channels{&tagChannel{name: "echo", tag: "XX:"}}
+					_ = server.AcceptConnection(&stallConn{Conn: c, after: 2}, polServerTLS(), false, ch)
+					_, _ = io.Copy(io.Discard, c)
+					return
+				}
 				if kind == "garbage" {
 					buf := make([]byte, 4096)
 					_, _ = c.Read(buf)
@@ -227,11 +237,14 @@ func polnetFirst(bad, carrier string) (string, string) {
 	var badUp upstream.Upstream
 	wait := 8 * time.Second
 	switch bad {
-	case "refused", "garbage", "silent", "silenttls":
+	case "refused", "garbage", "silent", "silenttls", "stalltls", "silentws":
 		kind := bad
 		scheme := "tcp"
 		if bad == "silenttls" {
 			kind, scheme = "silent", "tcp+tls"
+		}
+		if bad == "silentws" {
+			kind = "silent"
 		}
 		a, closer, err := badListener(kind)
 		if err != nil {
@@ -239,8 +252,12 @@ func polnetFirst(bad, carrier string) (string, string) {
 		}
 		defer closer()
 		badUp = &upstream.Socket{Address: addr.MustParseAddress(scheme + "://" + a)}
-		if kind == "silent" {
+		if kind == "silent" || kind == "stalltls" {
 			wait = 45 * time.Second // the real HandshakeTimeout has to pass
+		}
+		if bad == "silentws" {
+			badUp = &upstream.Http{Address: addr.MustParseAddress("ws://" + a + "/ws")}
+			wait = 75 * time.Second // the websocket dialer's own HandshakeTimeout (45 s)
 		}
 	case "insecure":
 		plain, err := NewRig(RigOpts{Carrier: "tcp", Relay: true})
@@ -351,6 +368,8 @@ func (polnetComp) Gen(r *Rand, tier string, emit func(string)) {
 	if tier == "thorough" {
 		emit("first silent tcp")
 		emit("first silenttls tcptls")
+		emit("first stalltls tcp")
+		emit("first silentws ws")
 	}
 	emit("first insecure tcp")
 	emit("nonsense")
